@@ -299,6 +299,102 @@ def _work(spec):
     return {"evals": evals, "nontrivial": nontrivial, "viols": viols, "base": base_spec, "nvariants": len(variants(spec))}
 
 
+# ---------------------------------------------------------------------------------------------------------------
+# simplicial complexes: boundary matrices and Hodge Laplacians
+
+
+def _sc_observe(S):
+    """Label-keyed renderings of the boundary matrices and Hodge Laplacians of S (default orientations).
+    signed: {k: {(face members, simplex members): +-1}}; unsigned: the same with absolute values; chain: B_{k-1} B_k = 0;
+    spectra: sorted eigenvalues of each Hodge Laplacian; betti: kernel dimensions."""
+    import xgi
+
+    mem = {e: frozenset(m) for e, m in S.edges.members(dtype=dict).items()}
+    dim = max([len(m) - 1 for m in mem.values()], default=0)
+    signed, spectra, betti, shapes = {}, {}, {}, {}
+    chain = True
+    Bs = {}
+    for k in range(1, dim + 2):
+        B, rd, cd = xgi.boundary_matrix(S, k, index=True)
+        B = np.asarray(B)
+        Bs[k] = B
+        shapes[k] = tuple(B.shape)
+        ent = {}
+        if B.size:
+            for i, j in zip(*np.nonzero(B)):
+                r = frozenset([rd[int(i)]]) if k == 1 else mem[rd[int(i)]]
+                ent[(frozenset(N(x) for x in r), frozenset(N(x) for x in mem[cd[int(j)]]))] = float(B[i, j])
+        signed[k] = ent
+    for k in range(1, dim + 1):
+        A, B = Bs[k], Bs[k + 1]
+        if A.size and B.size and A.shape[1] == B.shape[0] and np.any(A @ B != 0):
+            chain = False
+    for k in range(0, dim + 1):
+        L = np.asarray(xgi.hodge_laplacian(S, k))
+        if L.size:
+            w = np.linalg.eigvalsh(L)
+            spectra[k] = [round(float(x), 7) + 0.0 for x in w]
+            betti[k] = int(np.sum(np.abs(w) < 1e-8))
+    return {"signed": signed, "unsigned": {k: {kk: abs(v) for kk, v in d.items()} for k, d in signed.items()},
+            "shapes": shapes, "chain": chain, "spectra": spectra, "betti": betti}
+
+
+def _sc_variants(spec):
+    """(description, node map, order-preserving?, new spec).  Order-preserving variants (same labels in another insertion
+    order, or a monotone relabelling) must reproduce the *signed* matrices, because reference orientations follow the
+    label order; the others must reproduce everything that does not depend on the reference orientation."""
+    nodes = list(spec["nodes"])
+    m = len(spec["edges"])
+    out = []
+    out.append(("reversed node insertion", {}, True, F.relabel(spec, reverse_nodes=True)))
+    out.append(("reversed member order", {}, True, F.relabel(spec, reverse_members=True)))
+    out.append(("reversed node insertion and member order", {}, True, F.relabel(spec, reverse_nodes=True, reverse_members=True)))
+    for perm in itertools.permutations(range(m)):
+        if list(perm) != list(range(m)) and m <= 3:
+            out.append((f"simplex insertion order {perm}", {}, True, F.relabel(spec, edge_order=list(perm))))
+    if m > 3:
+        out.append(("simplex insertion reversed", {}, True, F.relabel(spec, edge_order=list(range(m))[::-1])))
+    for perm in itertools.permutations(nodes):
+        if list(perm) != nodes:
+            # the same labels attached to other vertices *and* first seen in another order
+            nm = dict(zip(nodes, perm))
+            out.append((f"node permutation {nm}", nm, False, F.relabel(spec, node_map=nm)))
+    mono = {n: 10 * n + 3 for n in nodes}
+    out.append(("monotone relabelling n -> 10 n + 3", mono, True, F.relabel(spec, node_map=mono)))
+    out.append(("monotone relabelling, reversed insertion", mono, True, F.relabel(spec, node_map=mono, reverse_nodes=True, reverse_members=True)))
+    strs = {n: "v%d" % (9 - n) for n in nodes}
+    out.append(("strings in reverse lexical order", strs, False, F.relabel(spec, node_map=strs)))
+    strs2 = {n: "v%d" % n for n in nodes}
+    out.append(("strings in lexical order, reversed insertion", strs2, True, F.relabel(spec, node_map=strs2, reverse_nodes=True)))
+    hu = dict(zip(sorted(nodes), [8, 1, 16, 3, 24][:len(nodes)]))
+    out.append(("hash-unordered integers", hu, False, F.relabel(spec, node_map=hu)))
+    return out
+
+
+def _work_sc(spec):
+    viols = []
+    evals = nontrivial = 0
+    with warnings.catch_warnings():
+        warnings.simplefilter("ignore")
+        base = _sc_observe(F.build(spec))
+        vs_all = _sc_variants(spec)
+        for desc, nm, keeps_order, vs in vs_all:
+            try:
+                got = _sc_observe(F.build(vs))
+            except Exception as e:  # noqa: BLE001
+                viols.append(("boundary/hodge", desc, vs, f"boundary matrices of the variant '{desc}' raised {type(e).__name__}: {e}"))
+                continue
+            for key in ("unsigned", "shapes", "chain", "spectra", "betti") + (("signed",) if keeps_order else ()):
+                evals += 1
+                want = transport(base[key], nm, {}) if key in ("unsigned", "signed") else base[key]
+                nontrivial += 1
+                if not same(want, got[key]):
+                    if len(viols) < 4:
+                        viols.append((f"boundary/hodge:{key}", desc, vs, f"{key} of the boundary matrices / Hodge Laplacians after "
+                                      f"'{desc}': {str(got[key])[:300]}, expected {str(want)[:300]}"))
+    return {"evals": evals, "nontrivial": nontrivial, "viols": viols, "base": spec, "nvariants": len(vs_all)}
+
+
 def family(tier):
     if tier == "quick":
         fam = list(F.undirected([1, 2, 3], 3)) + list(F.undirected([1, 2, 3, 4], 2, min_edges=1))
@@ -316,7 +412,10 @@ def run(tier, ev):
                       "singletons, isolated nodes) x relabelling grid "
                       "(all node permutations, +10, hash-unordered integers, strings; all edge-ID permutations, gaps, strings; all edge insertion "
                       "orders, reversed node insertion, reversed member order, combined) x ~70 observables; a case is one "
-                      "(network, relabelling, observable); non-trivial = both sides returned a value that was compared")
+                      "(network, relabelling, observable); non-trivial = both sides returned a value that was compared; plus every "
+                      "simplicial complex on <=4 vertices x (insertion orders, all node permutations, monotone / string / "
+                      "hash-unordered relabellings) x boundary matrices and Hodge Laplacians: signed entries for order-preserving "
+                      "variants, absolute entries, shapes, B_{k-1} B_k = 0, Laplacian spectra and Betti numbers for all")
     res = explore.parallel_map(_work, fam, env.nproc())
     viols = []
     nvar = 0
@@ -326,7 +425,19 @@ def run(tier, ev):
         for name, desc, vs, msg in r["viols"]:
             case = {"check": "c09", "kind": "relabel", "base": r["base"], "variant": vs, "observable": name, "desc": desc}
             viols.append(Violation(PROP, "not-invariant", msg, case, {"observable": name.split("(")[0]}))
-    ev.add(states=len(fam) + nvar)
+    # simplicial complexes
+    cfam = [c for c in F.complexes([1, 2, 3, 4], isolated=False) if c["edges"]]
+    if tier != "quick":
+        cfam += [c for c in F.complexes([1, 2, 3, 4, 5], isolated=False) if 5 in c["nodes"]][::3]
+    resc = explore.parallel_map(_work_sc, cfam, env.nproc())
+    for r in resc:
+        ev.add(evaluations=r["evals"], distinct_nontrivial=r["nontrivial"], transitions=r["evals"])
+        nvar += r["nvariants"]
+        for name, desc, vs, msg in r["viols"]:
+            case = {"check": "c09", "kind": "relabel-complex", "base": r["base"], "variant": vs, "observable": name, "desc": desc}
+            viols.append(Violation(PROP, "not-invariant", msg, case, {"observable": name.split(":")[0]}))
+    ev.cov["base_complexes"] = len(cfam)
+    ev.add(states=len(fam) + len(cfam) + nvar)
     ev.cov["base_networks"] = len(fam)
     ev.cov["relabelled_networks"] = nvar
     ev.cov["observables"] = len(observables(True))
@@ -336,6 +447,9 @@ def run(tier, ev):
 
 
 def replay(case):
+    if case.get("kind") == "relabel-complex":
+        r = _work_sc(case["base"])
+        return [msg for name, desc, vs, msg in r["viols"] if desc == case["desc"]]
     spec = case["variant"]
     base_spec = case["base"]
     O = observables(_is_uniform(base_spec))
